@@ -16,7 +16,13 @@ def reader_analysis(ck, tag='c01'):
         def hook(I, w, frame, site, key, args):
             w.mem[('G', 'kind')] = ('enum', ((kind, ()),))
             if kind in (0, 1):
-                w.mem[('G', 'lt')] = args[2]
+                lt_arg = args[2]
+                if lt_arg[0] == 'ref':
+                    # the helper takes the label type by reference: the ghost is a copy of the referenced place and learns what
+                    # later matches on that place establish (copy alias, see absint.refine_variant)
+                    w.alias[(('G', 'lt'), ())] = lt_arg[1]
+                    lt_arg = I.read(w, lt_arg[1])
+                w.mem[('G', 'lt')] = lt_arg
         return hook
 
     def saw_ext(I, w, frame, site, key, args):
